@@ -20,12 +20,33 @@ import (
 // oracles of the run's profile.
 func (w *World) afterMain() {
 	p := w.Cfg.Profile
+	defer w.checkPanics()
 	if fn, ok := profileAfterMain[p]; ok {
 		fn(w)
 		return
 	}
 	w.defaultSettle()
 	w.checkCore()
+}
+
+var libFrameRe = regexp.MustCompile(`github\.com/relab/gorums\.([^\s(]+(?:\([^)]*\))?[^\s(]*)\(`)
+
+// checkPanics: a panic (or modelled fatal error) in any goroutine that runs library code
+// would have crashed the process; it is reported under the property of the running profile.
+func (w *World) checkPanics() {
+	for _, p := range w.sched.TakePanics() {
+		fn := "harness"
+		if m := libFrameRe.FindStringSubmatch(p.Stack); m != nil {
+			fn = m[1]
+		} else if !p.Fatal {
+			// a panic without any library frame on the stack is a harness problem
+			w.note("harness panic in %s: %s", p.Task, p.Value)
+			w.internal = fmt.Sprintf("harness task %s panicked: %s\n%s", p.Task, p.Value, p.Stack)
+			continue
+		}
+		prop := w.Cfg.Profile
+		w.violate(prop, "library-panic", fn, "goroutine %s crashed in %s: %s", p.Task, fn, p.Value)
+	}
 }
 
 var profileAfterMain = map[string]func(w *World){}
@@ -267,6 +288,10 @@ func (w *World) checkCallOutcome(c *Call) {
 		}
 		key := w.classifyPending(c)
 		prop := pendingOwner(key)
+		if wk := w.wedgeKey(); wk != "unclassified" {
+			// a recognisable root cause is a better class than the set of node states
+			key = wk
+		}
 		if prop == "C02" {
 			w.rule("C02.terminates", false)
 		}
@@ -375,6 +400,10 @@ func (w *World) classifyPending(c *Call) string {
 		for _, h := range w.handlersFor(c, si) {
 			cur := w.latestStream(client, si)
 			switch {
+			case !w.servers[si].Up:
+				st = "server-down"
+			case w.touched(si):
+				st = "connection-fault"
 			case h.Inc != w.servers[si].Inc:
 				st = "old-incarnation"
 			case cur != nil && cur != h.Stream:
@@ -411,7 +440,7 @@ func pendingOwner(key string) string {
 	for _, st := range strings.Split(key, "+") {
 		switch st {
 		case "zero-targets", "all-replies-seen", "reply-not-delivered", "handler-error-not-delivered":
-		case "handled-on-replaced-stream", "old-incarnation", "server-down":
+		case "handled-on-replaced-stream", "old-incarnation", "server-down", "connection-fault":
 			if owner == "C02" {
 				owner = "C07"
 			}
@@ -469,7 +498,7 @@ func (w *World) checkDelivery(c *Call) {
 		ok := h.ReqVal == c.Expect[h.Srv]
 		w.rule("C06.payload", ok)
 		if !ok {
-			w.violate("C06", "wrong-payload", "", "call t%d (%s): server %d received payload %q, expected %q", c.Tok, c.Stub, h.Srv, h.ReqVal, c.Expect[h.Srv])
+			w.violate("C06", "wrong-payload", "", "call t%d (%s): server %d received payload %q, expected %q", c.Tok, c.Stub, h.Srv, clip(h.ReqVal), clip(c.Expect[h.Srv]))
 		}
 		if h.Method != c.Stub {
 			w.violate("C06", "wrong-method", "", "call t%d: stub %s reached handler %s on server %d", c.Tok, c.Stub, h.Method, h.Srv)
